@@ -34,7 +34,8 @@ NeedsCommitment(c) == c \in {"G1.SigmaCKK", "G2.Sigma", "proofSigma.g1", "proofS
 Positions(c) == IF IsVector(c) THEN {"first", "mid", "last"} ELSE {"only"}
 Hows(c) == IF c = "challenge" THEN {"flip"} ELSE {"double", "neg", "inf"}
 
-C(chain, i) == [chain |-> chain, idx |-> i, altered |-> FALSE]
+\* bound: the state whose hash is the contribution's challenge (an honest contributor binds to the state it extends)
+C(chain, i) == [chain |-> chain, idx |-> i, altered |-> FALSE, rebound |-> FALSE]
 Id(c) == <<c.chain, c.idx>>
 \* what a contribution was computed from
 Base(c) == IF c.idx = 1 THEN <<"init", 0>> ELSE <<c.chain, c.idx - 1>>
@@ -44,11 +45,14 @@ Honest(n) == [i \in 1..n |-> C("A", i)]
 Edits(ph, n, circuit) ==
   {[kind |-> "none"]}
   \cup {[kind |-> "alter", i |-> i, comp |-> c, pos |-> p, how |-> h] :
-          i \in 1..n, c \in {x \in Comp(ph) : NeedsCommitment(x) => circuit = "commit"}, p \in {"first", "mid", "last", "only"}, h \in {"double", "neg", "inf", "flip"}}
+          i \in 1..n, c \in {x \in Comp(ph) : NeedsCommitment(x) => circuit \in {"commit", "commit2"}}, p \in {"first", "mid", "last", "only"}, h \in {"double", "neg", "inf", "flip"}}
   \cup {[kind |-> "swap", i |-> i] : i \in 1..(n - 1)}
   \cup {[kind |-> "drop", i |-> i] : i \in 1..n}
   \cup {[kind |-> "dup", i |-> i] : i \in 1..n}
   \cup {[kind |-> "splice", i |-> i] : i \in 1..n}
+  \* a contributor that rescales its predecessor correctly and proves knowledge, but under a challenge of its own choosing
+  \* (not the hash of the predecessor): the transcript chain is broken although every ratio check passes
+  \cup (IF ph = 2 THEN {[kind |-> "rebound", i |-> i] : i \in 1..n} ELSE {})
   \cup (IF ph = 2 THEN {[kind |-> "otherPhase1"], [kind |-> "otherCircuit"]} ELSE {})
 WellFormedEdit(e) == e.kind = "alter" => e.pos \in Positions(e.comp) /\ e.how \in Hows(e.comp)
 
@@ -59,20 +63,21 @@ Present(n, e) ==
   LET h == Honest(n) IN
   CASE e.kind \in {"none", "otherPhase1", "otherCircuit"} -> h
     [] e.kind = "alter" -> [h EXCEPT ![e.i].altered = TRUE]
+    [] e.kind = "rebound" -> SubSeq([h EXCEPT ![e.i].rebound = TRUE], 1, e.i)   \* followed by nothing: later honest contributors would extend it
     [] e.kind = "swap" -> [h EXCEPT ![e.i] = h[e.i + 1], ![e.i + 1] = h[e.i]]
     [] e.kind = "drop" -> Without(h, e.i, 1)
     [] e.kind = "dup" -> SubSeq(h, 1, e.i) \o SubSeq(h, e.i, n)
     [] e.kind = "splice" -> [h EXCEPT ![e.i] = C("B", e.i)]
 
 ChainValid(s) == \A k \in 1..Len(s) :
-                    /\ ~s[k].altered
+                    /\ ~s[k].altered /\ ~s[k].rebound
                     /\ Base(s[k]) = (IF k = 1 THEN <<"init", 0>> ELSE Id(s[k - 1]))
 Verdict(e, s) == IF e.kind \in {"otherPhase1", "otherCircuit"} THEN (IF Len(s) = 0 THEN "accept" ELSE "reject")
                  ELSE IF ChainValid(s) THEN "accept" ELSE "reject"
 
 VARIABLES ph, n, circuit, edit, done
 vars == <<ph, n, circuit, edit, done>>
-Init == /\ ph \in Phases /\ n \in 1..MaxN /\ circuit \in {"plain", "commit"} /\ done = FALSE
+Init == /\ ph \in Phases /\ n \in 1..MaxN /\ circuit \in {"plain", "commit", "commit2", "bigdomain"} /\ done = FALSE
         /\ (ph = 1 => circuit = "plain")
         /\ edit \in Edits(ph, n, circuit) /\ WellFormedEdit(edit)
 Finish == /\ ~done /\ done' = TRUE /\ UNCHANGED <<ph, n, circuit, edit>>
